@@ -11,6 +11,7 @@ case "$VARIANT" in
   plain) FLAGS="-O2" ;;
   asan)  FLAGS="-O1 -fsanitize=address,undefined -fno-sanitize=float-divide-by-zero -fsanitize-recover=all -D_GLIBCXX_ASSERTIONS" ;;
   tsan)  FLAGS="-O1 -fsanitize=thread" ;;
+  pattern) FLAGS="-O2" ;;
 esac
 NAME=$(basename "$SRC" | sed 's/\.[a-z]*$//')
 KEY=$( (cat "$SRC" "$VERIF"/engine/*.hpp "$VERIF"/ref/d0rt.h; echo "$B $R $VARIANT $FLAGS $*") | sha256sum | cut -c1-12)
